@@ -3,7 +3,7 @@
     Run from the directory that should receive model.ml / model.mli. *)
 From Coq Require Import ExtrOcamlBasic.
 From Coq Require Import List NArith ZArith.
-From WB Require Import Num Base Props World Kernels Features Plume Bezier Apps Dat Grid SlabSpec SlabModel SlabFeature.
+From WB Require Import Num Base Props World Kernels Features Plume Bezier Apps Dat Grid SlabSpec SlabModel SlabFeature BezierSph.
 
 Extraction Language OCaml.
 Extraction "model.ml"
@@ -13,8 +13,8 @@ Extraction "model.ml"
   cross_dir map2d cartesian_to_spherical spherical_to_cartesian great_circle_distance
   approx merge_values values_min values_max polygon_contains polygon_contains_impl find_closest_points surface_local_value in_triangle
   area_to_feature plume_to_feature plume_rel_distance
-  bezier_build bezier_eval closest_point_cartesian
+  bezier_build bezier_eval closest_point_cartesian closest_point_spherical
   cells2 cells3 filter_mesh
   planar_distance slab_member fault_member
-  distance_point_from_curved_planes line_to_feature lf_distances lf_covers line_of_layout
+  distance_point_from_curved_planes line_to_feature lf_distances lf_covers line_of_layout line_of_layout_gen distance_point_from_curved_planes_sph
   parallel_for dat_options_of dat_properties dat_header dat_row dat_row_accepted col_cell.
